@@ -337,30 +337,40 @@ fn c18_ring_write_and_read_equal_the_file_api() {
 
 // capacity: a ring write is refused with -ENOSPC exactly when the GROWTH of the file does not fit
 // (the synchronous API charges only the bytes by which the file grows), and a refused write has no
-// effect. Disk of `cap` bytes (symbolic 2..4) holding one 2-byte file; the ring writes 2 bytes at
-// offset 1 (growth 1).
-// @verif id=C18 tier=quick role=effect_parity timeout=1500 mem=12
+// effect. Disk of `cap` bytes holding one 2-byte file; the ring writes 2 bytes at offset 1 (growth 1).
+// With a symbolic capacity 2..4 the harness ran out of memory at 12 GB (measured): the capacity is
+// concrete per instance.
+fn capacity_step(cap: u64) -> i32 {
+    let mut cfg = turmoil_fs::FsConfig::default();
+    cfg.capacity(cap);
+    let mut fs = Fs::new(cfg, 7);
+    let fd = fs.alloc_fd();
+    fs.open_handles.insert(fd, MPathBuf::from("/f"));
+    let path = MPathBuf::from("/f");
+    let d: [u8; 2] = kani::any();
+    let now = ms(3);
+    let mut rng = SymRng;
+    fs.write_file(&path, 0, &d, now); // 2 bytes used
+    let res = exec_write(&mut fs, &mut rng, fd, d.as_ptr(), 2, 1, now);
+    let fits = 2 + 1 <= cap;
+    assert!((res == 2) == fits && (res == -ENOSPC) == !fits, "refused exactly when the growth does not fit");
+    assert!(fs.file_len(&path) == if fits { 3 } else { 2 }, "a refused write has no effect");
+    std::mem::forget(fs);
+    res
+}
+// @verif id=C18 tier=unshipped role=effect_parity timeout=1500 mem=12
 #[kani::proof]
 #[kani::stub(tokio::sync::Notify::notify_waiters, stub_notify_waiters)]
 #[kani::unwind(10)]
 fn c18_ring_write_charges_only_the_growth_against_capacity() {
-    let cap: u64 = kani::any();
-    kani::assume(cap >= 2 && cap <= 4);
-    let mut cfg = turmoil_fs::FsConfig::default();
-    cfg.capacity(cap);
-    let mut fs = Fs::new(cfg, 7);
-    let fd2 = fs.alloc_fd();
-    fs.open_handles.insert(fd2, MPathBuf::from("/f"));
-    let path = MPathBuf::from("/f");
-    let d: [u8; 2] = kani::any();
-    let now = ms(kani::any());
-    let mut rng = SymRng;
-    fs.write_file(&path, 0, &d, now); // 2 bytes used
-    let res = exec_write(&mut fs, &mut rng, fd2, d.as_ptr(), 2, 1, now);
-    let fits = 2 + 1 <= cap;
-    assert!((res == 2) == fits && (res == -ENOSPC) == !fits, "refused exactly when the growth does not fit");
-    assert!(fs.file_len(&path) == if fits { 3 } else { 2 }, "a refused write has no effect");
-    kani::cover!(cap == 3 && res == 2, "growth fits exactly although the whole write would not");
-    kani::cover!(cap == 2 && res == -ENOSPC, "disk full");
-    std::mem::forget(fs);
+    let res = capacity_step(3);
+    kani::cover!(res == 2, "growth fits exactly although the whole write would not");
+}
+// @verif id=C18 tier=unshipped role=effect_parity timeout=1500 mem=12
+#[kani::proof]
+#[kani::stub(tokio::sync::Notify::notify_waiters, stub_notify_waiters)]
+#[kani::unwind(10)]
+fn c18_ring_write_is_refused_when_the_disk_is_full() {
+    let res = capacity_step(2);
+    kani::cover!(res == -ENOSPC, "disk full");
 }
